@@ -5,7 +5,7 @@ P="$1"; shift
 cd /repo || exit 2
 if ! git diff --quiet; then echo "/repo has local changes"; exit 2; fi
 git apply "$P" || { echo "patch does not apply"; exit 2; }
-trap 'git -C /repo checkout -- . ; git -C /repo status --short' EXIT
+trap 'git -C /repo checkout -- . ; git -C /repo status --short; (cd /verif/harness && . /verif/tools/env.sh && go build -tags verif -o /verif/.build/drv ./cmd/drv)' EXIT
 export GOFLAGS=-mod=readonly GOPROXY=off GOSUMDB=off GOTOOLCHAIN=local
 if go build ./... && go test -vet=off -count=1 ./... >/tmp/mutest.$$ 2>&1; then echo "[mutest] repo tests PASS with the change"; else echo "[mutest] repo tests FAIL with the change"; tail -5 /tmp/mutest.$$; fi
 rm -f /tmp/mutest.$$
